@@ -225,3 +225,29 @@ Fixpoint xevs_eqb (a b : list xev) : bool :=
    the declaration and the line breaks outside the root element are not character data of the document *)
 Definition reported (doc : list node) : list xev :=
   flat_map (fun n => match n with NText _ | NPI _ => [] | _ => flatten n end) doc.
+
+(* ------------------------------------------------------------ programs that abort
+   what a program of leaf elements, comments, `with tagcontext` blocks and a raising statement gets to write: everything up to
+   the first raise, every block that was entered still being left (the `finally` of tagcontext) *)
+Fixpoint cut (p : stmt) : list stmt * bool :=
+  match p with
+  | SCtx t a body =>
+      let '(b', r) := (fix go (l : list stmt) : list stmt * bool :=
+                         match l with
+                         | [] => ([], false)
+                         | x :: rest => let '(x', r) := cut x in
+                                        if r then (x', true)
+                                        else let '(rest', r') := go rest in (x' ++ rest', r')
+                         end) body in
+      ([SCtx t a b'], r)
+  | SRaise => ([], true)
+  | _ => ([p], false)
+  end.
+Fixpoint cutl (l : list stmt) : list stmt * bool :=
+  match l with
+  | [] => ([], false)
+  | x :: rest => let '(x', r) := cut x in
+                 if r then (x', true)
+                 else let '(rest', r') := cutl rest in (x' ++ rest', r')
+  end.
+
